@@ -8,6 +8,7 @@
 (* comes back corrupted or from another document shows up as a different id.     *)
 (* TRACE_FILE: array of [idx, obs: array of observations]; kinds:                *)
 (*   postings   f, t, list = [[docnum, freq, [positions]]..]  of reader.postings *)
+(*   chars      f, t, list = [[docnum, [[pos, startchar, endchar]..]]..]         *)
 (*   absent     f, t            term reported as not in the index                *)
 (*   lexicon    f, terms        reader.lexicon(f)                                *)
 (*   fieldlen   f, d, n         reader.doc_field_length(d, f)                    *)
@@ -44,12 +45,34 @@ VectorOf(idx, d, f) ==
   LET T == ToSet(Toks(idx, d, f)) \ {Gap}
       ts == SetToSortSeq(T, LAMBDA a, b : SeqLess(a, b))
   IN [i \in DOMAIN ts |-> <<ts[i], Tf(idx, d, f, ts[i]), SetToSortSeq(Positions(idx, d, f, ts[i]), <)>>]
+\* character offsets: the analysed text is the tokens joined by one space; a removed stop word
+\* (gap) is the 3-letter word; every letter of the alphabet is one character
+TokLen(tok) == IF tok = Gap THEN 3 ELSE Len(tok)
+RECURSIVE StartChar(_, _)
+StartChar(toks, i) == IF i = 1 THEN 0 ELSE StartChar(toks, i - 1) + TokLen(toks[i - 1]) + 1
+CharsOf(idx, d, f, t) ==      \* <<position, startchar, endchar>> of every occurrence, in position order
+  LET toks == Toks(idx, d, f)
+      ps == SetToSortSeq(Positions(idx, d, f, t), <)
+  IN [k \in DOMAIN ps |-> <<ps[k], StartChar(toks, ps[k] + 1), StartChar(toks, ps[k] + 1) + Len(t)>>]
+CharList(idx, f, t) ==
+  LET ids == SetToSortSeq({d \in Live(idx) : Tf(idx, d, f, t) > 0}, <)
+  IN [i \in DOMAIN ids |-> <<ids[i], CharsOf(idx, ids[i], f, t)>>]
+
+\* stored weight of a posting = frequency * document boost (field boost 1), in units of 1/Unit
+W(idx, d, f, t) == Scale(Tf(idx, d, f, t) * Unit, Doc(idx, d).b4)
+WeightList(idx, f, t) ==
+  LET ids == SetToSortSeq({d \in Live(idx) : Tf(idx, d, f, t) > 0}, <)
+  IN [i \in DOMAIN ids |-> <<ids[i], W(idx, ids[i], f, t)>>]
+SumW(wl) == LET RECURSIVE S(_) S(i) == IF i = 0 THEN 0 ELSE S(i - 1) + wl[i][2] IN S(Len(wl))
+
 StoredOf(idx, d) == LET S == Doc(idx, d).s IN [f \in {g \in DOMAIN S : S[g] # 0} |-> S[f]]
 ColOf(idx, d, f) == IF f \in DOMAIN Doc(idx, d).c THEN Doc(idx, d).c[f] ELSE 0
 
 Expected(idx, o) ==
   CASE o.kind = "postings" -> [list |-> PostingList(idx, o.f, o.t)]
     [] o.kind = "absent" -> [list |-> PostingList(idx, o.f, o.t)]
+    [] o.kind = "chars" -> [list |-> CharList(idx, o.f, o.t)]
+    [] o.kind = "weights" -> [list |-> WeightList(idx, o.f, o.t)]
     [] o.kind = "postings_nopos" -> [list |-> PostingList(idx, o.f, o.t)]
     [] o.kind = "lexicon" -> [must_contain |-> SetToSortSeq({t \in Lexicon(idx, o.f) : \E d \in Live(idx) : Tf(idx, d, o.f, t) > 0},
                                                              LAMBDA a, b : SeqLess(a, b))]
@@ -62,13 +85,14 @@ Expected(idx, o) ==
     [] o.kind = "livekeys" -> [keys |-> ModelLive(o.ops, Len(o.ops))]
     [] OTHER -> [ok |-> TRUE]
 
-SumTf(pl) == LET RECURSIVE S(_) S(i) == IF i = 0 THEN 0 ELSE S(i - 1) + pl[i][2] IN S(Len(pl))
 
 ObsOK(idx, o) ==
   CASE o.kind = "postings" -> o.list = PostingList(idx, o.f, o.t)
     [] o.kind = "postings_nopos" ->      \* a field indexed without positions: documents and frequencies
          LET pl == PostingList(idx, o.f, o.t)
          IN [i \in DOMAIN o.list |-> <<o.list[i][1], o.list[i][2]>>] = [i \in DOMAIN pl |-> <<pl[i][1], pl[i][2]>>]
+    [] o.kind = "chars" -> o.list = CharList(idx, o.f, o.t)      \* value_as("characters") of every posting
+    [] o.kind = "weights" -> o.list = WeightList(idx, o.f, o.t)  \* matcher.weight() of every posting
     [] o.kind = "absent" -> PostingList(idx, o.f, o.t) = <<>>
     [] o.kind = "lexicon" ->
          \* every term of a live document is listed, in strictly ascending order, and nothing that
@@ -85,9 +109,9 @@ ObsOK(idx, o) ==
     [] o.kind = "terminfo" ->
          \* statistics are those of the stored posting list (C10); with deletions pending they may
          \* still count deleted documents, so they are asserted only on an index without deletions
-         LET pl == PostingList(idx, o.f, o.t)
+         LET pl == WeightList(idx, o.f, o.t)
          IN (Cardinality(Live(idx)) = Len(idx.docs)) =>
-               /\ o.df = Len(pl) /\ o.tf = SumTf(pl)
+               /\ o.df = Len(pl) /\ o.tf = SumW(pl)                  \* document frequency, total weight
                /\ (Len(pl) > 0 => o.minid = pl[1][1] /\ o.maxid = pl[Len(pl)][1])
                /\ (Len(pl) > 0 => o.maxw = Max({pl[i][2] : i \in DOMAIN pl}))
     [] o.kind = "livekeys" ->     \* keys of the live documents the reader delivers, each once
